@@ -19,7 +19,7 @@ ASSUMPTIONS = [
     "MDAM and PointerNetwork do not go through DecodingStrategy.step per decoder call in a way the tap can align; MDAM's normalisation is covered via C14 (fixed defect), PointerNetwork via the round trip only when the tap aligns",
     "beam search is C13's subject",
 ]
-REQUIRED_COUNTERS = ["c11_select_best_roundtrips", "c11_ffsp_multistage_decodes", "c11_ffsp_stage_changes", "c11_minibatch_roundtrips", "c11_forwards", "c11_step_rows", "c11_forced_steps", "c11_padding_step_rows", "c11_entropy_checked", "c11_sum_checked", "c11_roundtrips", "c11_roundtrips_replicated", "c11_stepwise_rows", "c11_flagged_function_calls", "c11_flagged_policy_rows"]
+REQUIRED_COUNTERS = ["c11_warmup_calls", "c11_select_best_roundtrips", "c11_ffsp_multistage_decodes", "c11_ffsp_stage_changes", "c11_minibatch_roundtrips", "c11_forwards", "c11_step_rows", "c11_forced_steps", "c11_padding_step_rows", "c11_entropy_checked", "c11_sum_checked", "c11_roundtrips", "c11_roundtrips_replicated", "c11_stepwise_rows", "c11_flagged_function_calls", "c11_flagged_policy_rows"]
 MIN_NONTRIVIAL = {"quick": 900, "thorough": 8000}
 WORKERS = {"quick": 14, "thorough": 16}
 BUDGET_S = {"quick": 500, "thorough": 3000}
@@ -62,7 +62,7 @@ def cases(tier, seed):
                     for r in range(2 if q else 4):
                         # train mode (what REINFORCE / PPO rollouts run in) for the attention models: every second case
                         tm = bool(r % 2) and kind in ("am", "am_instnorm", "am_layernorm")
-                        out.append(dict(policy=kind, env=env, n=n, B=B, s=rnd.randrange(10**6), wseed=r, extra=extra, decode=dk, train_mode=tm))
+                        out.append(dict(policy=kind, env=env, n=n, B=B, s=rnd.randrange(10**6), wseed=r, extra=extra, decode=dk, train_mode=tm, warm=(rnd.random() < 0.35)))
     for env in ("tsp", "cvrp", "cvrptw", "sdvrp", "svrp", "op", "mtvrp"):
         for (n, n2) in (((6, 11), (10, 7)) if q else ((6, 11), (10, 7), (10, 20))):
             for dk in DECODES:
